@@ -29,3 +29,15 @@ func VerifCacheLen() int {
 
 	return len(cache)
 }
+
+// VerifCachedTemplates returns a copy of the global template cache.
+func VerifCachedTemplates() map[string]*Template {
+	moot.Lock()
+	defer moot.Unlock()
+
+	m := make(map[string]*Template, len(cache))
+	for k, v := range cache {
+		m[k] = v
+	}
+	return m
+}
